@@ -74,6 +74,11 @@ def main():
                     meta['suite_with_change']['rc'] = 0
                     meta['suite_with_change']['note'] = 'failures under xdist did not reproduce serially (shared ./test_data race)'
         caught = {}
+        if only_own and os.path.exists(os.path.join(dst, 'meta.json')):
+            try:
+                caught = dict(json.load(open(os.path.join(dst, 'meta.json'))).get('quick_checks') or {})
+            except Exception:  # noqa
+                caught = {}
         outdir = tempfile.mkdtemp(prefix='seedout_')
         for cid in ([pid] if only_own else ALL):
             rc, out = sh(f'./check {cid} quick', cwd=VERIF,
